@@ -504,11 +504,13 @@ theorem readRaw_np (w : World) (hdef : ∀ bs, w.t.rdDef ≠ .data bs) :
   unfold readRaw
   obtain ⟨h1, h2, h3⟩ := Codec.readFrame_phi w.c.codec w.t w.c.cfg.maxFrame (w.c.role == .server)
     w.c.cfg.acceptUnmasked hdef
+  have hncc := codec_readFrame_ne_cc w.c.codec w.t w.c.cfg.maxFrame (w.c.role == .server)
+    w.c.cfg.acceptUnmasked
   generalize w.c.codec.readFrame w.t w.c.cfg.maxFrame (w.c.role == .server)
     w.c.cfg.acceptUnmasked = q at *
   obtain ⟨c1, t1, r⟩ := q
-  simp only [] at h1 h2 h3 ⊢
-  rcases checkConnectionReset_cases (w.setCodec c1 t1) r with ⟨he, _⟩ | ⟨he, _, _⟩
+  simp only [] at h1 h2 h3 hncc ⊢
+  rcases checkConnectionReset_cases (w.setCodec c1 t1) r hncc with ⟨he, _⟩ | ⟨he, _, _⟩
   · rw [he]; exact ⟨h1, h2, h3⟩
   · rw [he]; exact ⟨h1, by simp, by simp⟩
 
